@@ -121,7 +121,7 @@ package datatypes
 //@   ensures[plain-reply-untouched] !ppp.GetPushPullPackOption().HasErrorBit() && !ppp.GetPushPullPackOption().HasSubscribeBit() ==> result == nil && its.checkPoint.Sseq == old(its.checkPoint.Sseq) && its.checkPoint.Cseq == old(its.checkPoint.Cseq) && len(its.localBuffer) == old(len(its.localBuffer)) && its.opID.Seq == old(its.opID.Seq)
 //@   ensures[subscribe-checkpoint]  result == nil && ppp.GetPushPullPackOption().HasSubscribeBit() ==> its.checkPoint.Cseq == ppp.CheckPoint.Cseq && math(its.checkPoint.Sseq) + len(ppp.Operations) == math(ppp.CheckPoint.Sseq) + (ppp.CheckPoint.Sseq < len(ppp.Operations) ? 18446744073709551616 : 0)
 //@   ensures[subscribe-resets]      result == nil && ppp.GetPushPullPackOption().HasSubscribeBit() ==> len(its.localBuffer) == 0 && its.opID.Seq == 0
-//@   modifies WiredDatatype.localBuffer, model.OperationID.Seq, model.CheckPoint.Sseq, model.CheckPoint.Cseq, SnapshotDatatype.Snapshot, TransactionDatatype.rollbackSnapshot, TransactionDatatype.rollbackMeta, TransactionDatatype.rollbackOps, G:lastMarshaled, errors.singleOrdaError.Code, errors.PushPullError.*, @operations.ModelToOperation
+//@   modifies WiredDatatype.localBuffer, model.OperationID.Seq, model.CheckPoint.Sseq, model.CheckPoint.Cseq, SnapshotDatatype.Snapshot, TransactionDatatype.rollbackSnapshot, TransactionDatatype.rollbackMeta, TransactionDatatype.rollbackOps, G:lastMarshaled
 
 // ReceiveRemoteModelOperations cuts the received operations into units: a transaction
 // operation announces the length of its unit. Safety for ALL inputs: a truncated unit
